@@ -5,7 +5,7 @@ from mc.checks import codec_matrix as CM
 from mc.model import x690 as M
 from mc.model import universe as U
 from mc.bind import pyasn1_bind as B
-from mc.core.runner import Result, pyasn1_site
+from mc.core.runner import guarded, Result, pyasn1_site
 
 from pyasn1.codec.ber import decoder as ber_dec
 from pyasn1.codec.cer import decoder as cer_dec
@@ -193,10 +193,12 @@ def shard(tier, i, n, seed):
     for idx, name, T, v in tags_subset(tier):
         if (idx + seed) % n != i:
             continue
-        try:
-            check_case(idx, name, T, v, tier, R, others)
-        except M.ModelError:
-            R.features['model_skipped'] += 1
+        def one():
+            try:
+                check_case(idx, name, T, v, tier, R, others)
+            except M.ModelError:
+                R.features['model_skipped'] += 1
+        guarded(R, one, {'slice': name, 'T': T, 'v': v}, CM.type_features(T), idx)
         R.features['slice:' + name] += 1
         if idx % 9973 == seed % 9973:
             R.sample({'T': M.show_type(T), 'v': v})
